@@ -8,11 +8,12 @@
 package main
 
 import (
+	"bufio"
 	"encoding/hex"
 	"flag"
 	"fmt"
 	"os"
-	"bufio"
+	"sync"
 
 	"github.com/goose-lang/goose/machine"
 	"verif/harness/internal/rng"
@@ -46,6 +47,27 @@ func main() {
 	r := rng.New(*seed)
 	w := bufio.NewWriter(os.Stdout)
 	defer w.Flush()
+	// two goroutines, two adjacent 32-bit (and 64-bit) fields of one record: a put touches its own frame only
+	{
+		lost := 0
+		rounds := 20000
+		rec := make([]byte, 24)
+		for i := 0; i < rounds; i++ {
+			a, b := uint32(i)*2654435761, uint32(i)*40503+7
+			c, d := uint64(i)*0x9e3779b97f4a7c15, uint64(i)*0xc2b2ae3d27d4eb4f+1
+			var wg sync.WaitGroup
+			wg.Add(4)
+			go func() { machine.UInt32Put(rec[0:], a); wg.Done() }()
+			go func() { machine.UInt32Put(rec[4:], b); wg.Done() }()
+			go func() { machine.UInt64Put(rec[8:], c); wg.Done() }()
+			go func() { machine.UInt64Put(rec[16:], d); wg.Done() }()
+			wg.Wait()
+			if machine.UInt32Get(rec[0:]) != a || machine.UInt32Get(rec[4:]) != b || machine.UInt64Get(rec[8:]) != c || machine.UInt64Get(rec[16:]) != d {
+				lost++
+			}
+		}
+		fmt.Fprintf(w, "conc adjacent-fields rounds=%d lost=%d\n", rounds, lost)
+	}
 	for i := 0; i < *n; i++ {
 		var v uint64
 		switch r.Intn(3) {
